@@ -39,8 +39,10 @@ type vLazyRef struct{ name string }
 
 // vPick resolves the lazily chosen parts of the world the first time they are looked at, so that
 // only what an operation touches multiplies the case split.
+var vMinLen = 0
+
 func vPickRefs(name string, k int) []vRef {
-	n := verifChoice(name+".len", k+1)
+	n := vMinLen + verifChoice(name+".len", k+1-vMinLen)
 	l := make([]vRef, n)
 	for i := range l {
 		if verifChoice(name+"."+verifItoa(i), 2) == 0 {
@@ -57,6 +59,9 @@ func vReadmeWorld(k int) *vWorld {
 	w.ents["h1"] = vEnt{"__typename": "Human", "id": "h1", "friends": vLazyRefs{"h1.friends"}, "best": vLazyRef{"h1.best"}, "pets": []vRef{{"Animal", "a1"}},
 		"age": verifInt("h1_age", 0, 99), "badge": vRef{"Badge", "b1"}}
 	w.ents["h2"] = vEnt{"__typename": "Human", "id": "h2", "friends": []vRef{}, "best": nil, "pets": []vRef{}, "age": nil, "badge": nil}
+	if vMinLen > 0 {
+		w.ents["h2"] = vEnt{"__typename": "Human", "id": "h2", "friends": []vRef{{"Human", "h1"}}, "best": vRef{"Human", "h1"}, "pets": []vRef{{"Animal", "a1"}}, "age": nil, "badge": vRef{"Badge", "b1"}}
+	}
 	w.ents["a1"] = vEnt{"__typename": "Animal", "id": "a1", "owner": vRef{"Human", "h1"}, "kind": "CAT"}
 	w.ents["b1"] = vEnt{"__typename": "Badge", "id": "b1", "code": verifInt("b1_code", 0, 9)}
 	w.roots["Query.getHumans"] = vLazyRefs{"getHumans"}
@@ -99,7 +104,7 @@ func vReadmeOps() []vOp {
 		{q: `query($u: Boolean = true) { me { name(upper: $u) phone } }`, known: "default-var"},
 		{q: `query($s: Boolean!) { me { name phone @skip(if: $s) } }`, known: "directive-var", vars: func() map[string]interface{} { return map[string]interface{}{"s": false} }},
 		{q: `{ node(id: "h1") { id } }`, noNode: true, known: "node-without-fragment"},
-		{q: `{ __typename me { phone } }`},
+		{q: `{ __typename me { phone } }`, known: "root-typename"},
 		{q: `query($c: Int = 4) { me { phone(cc: $c) } }`, vars: func() map[string]interface{} { return map[string]interface{}{"c": verifInt("var_c", 0, 9)} }},
 	}
 }
@@ -122,7 +127,7 @@ func vLookup(w *vWorld, holder map[string]interface{}, key string, raw interface
 		return v
 	case vLazyRef:
 		var v interface{}
-		if verifChoice(l.name+".null", 2) == 0 {
+		if vMinLen > 0 || verifChoice(l.name+".null", 2) == 0 {
 			if l.name == "me" {
 				v = vRef{"Human", "h1"}
 			} else {
@@ -250,7 +255,7 @@ type Query { node(id: ID!): Node pong: String }
 `
 
 func vPickPets(name string, k int) []vRef {
-	n := verifChoice(name+".len", k+1)
+	n := vMinLen + verifChoice(name+".len", k+1-vMinLen)
 	l := make([]vRef, n)
 	for i := range l {
 		if verifChoice(name+"."+verifItoa(i), 2) == 0 {
